@@ -398,6 +398,20 @@ func (c *c03sEnv) genFor(o c03sOpc, rng *Rng, nRandom int) {
 				}
 			}
 		}
+		// (B') a 32-bit read of vcc_lo hands the handler all 64 bits of VCC (emulator register file,
+		// property C07): 32-bit handlers must not let the upper half through
+		if !o.src64 {
+			for _, vcc := range []uint64{1 << 32, 0xffffffff00000000, 0x100000001, 0x8000000080000000} {
+				for _, other := range []c03sOpnd{{kind: kVCC}, sg(0xffffffff), sg(0), sg(1)} {
+					for scc := byte(0); scc < 2; scc++ {
+						st := base
+						st.scc, st.vcc = scc, vcc
+						c.one(o, c03sOpnd{kind: kVCC}, other, 8, 0, st, false)
+						c.one(o, other, c03sOpnd{kind: kVCC}, 8, 0, st, false)
+					}
+				}
+			}
+		}
 		// (C) destination kinds
 		if o.format == "sop2" {
 			dsts := []uint32{4, 6, 106, 124}
